@@ -105,7 +105,7 @@ def effect_blocks(F, f, writes_only):
 def gate_error_ok(f, gate):
     """the failing edge of the gate returns InvalidVecDimension{expected: dims, received: len(vector)} and no success"""
     sw, eq, fail, va = gate
-    errs = [(b, t) for b, k, t in paths.ret_assigns(f) if k == 'err' and b in f.reachable(fail)]
+    errs = [(b, t) for b, k, t in paths.ret_assigns(f) if k in ('err',) and b in f.reachable(fail)]
     good = False
     detail = 'no InvalidVecDimension return on the failing edge'
     for b, t in errs:
@@ -147,7 +147,7 @@ def gate_of(F, f):
 
 
 def r_gate(ctx):
-    F = ctx.F
+    F = getattr(ctx.F, 'raw', ctx.F)  # helper-aware on the un-inlined bodies (inlining merges the helper's Ok/Err returns)
     rule = 'R-GATE'
     targets = [('writer::Writer::<D>::add_item', True), ('writer::Writer::<D>::append_item', True),
                ("reader::QueryBuilder::<'a, D>::by_vector", False)]
@@ -262,7 +262,7 @@ def r_sibling(ctx):
                 ki = key_info(c.arg_term(k))
                 val = c.arg_term(len(c.args) - 1)
                 kind = ki[0] if ki else '?'
-                out.append((kind, strip_all(ki[1]) if ki else None, strip_all(ki[2]) if ki and ki[2] else None, strip_all(val) if kind == 'item' else None))
+                out.append((kind, strip_all(ki[1]) if ki else None, strip_all(ki[2]) if ki and ki[2] else None, None))
         for c in f.calls():
             for g in F.resolve_call(c):
                 if g.path != f.path and not g.in_test and g.path.startswith('writer::'):
